@@ -74,7 +74,7 @@ def shape(r, depth=6):
         if isinstance(c, tuple):
             return "c"
         return {0: "0", 1: "1"}.get(c, "k") if not isinstance(c, float) or c.is_integer() else "q"
-    if k == "param":
+    if k in ("param", "pdup"):
         return "p"
     if k in ("vec", "mat"):
         return k
@@ -354,6 +354,17 @@ def scalar_family(tier):
         out.append(("bin", "+", ("bin", op, P, ("param", "q")), X))
         out.append(("bin", op, ("bin", "+", X, Y), ("bin", "*", P, ("param", "q"))))
     out += [("bin", "**", ("bin", "+", X, Y), P), ("bin", "**", P, ("bin", "*", X, Y)), ("un", "exp", ("un", "neg", ("bin", "*", P, P)))]
+    # nested constant powers ((u**k1)**k2 is |u|**(k1*k2) for even k1, not u**(k1*k2))
+    for e in (("bin", "-", X, Y), X):
+        for k1 in (2, 3):
+            for k2 in (1.5, 0.5, 2, -1):
+                out.append(("bin", "**", ("bin", "**", e, ("const", k1)), ("const", k2)))
+                out.append(("bin", "+", ("bin", "**", ("bin", "**", e, ("const", k1)), ("const", k2)), ("bin", "*", X, Y)))
+    # two DIFFERENT Parameter objects that carry the same name (own values) inside one expression
+    D0, D1 = ("pdup", "p", 0), ("pdup", "p", 1)
+    out += [("bin", "+", ("bin", "*", D0, X), ("bin", "*", D1, Y)), ("bin", "-", ("un", "exp", ("bin", "*", D0, X)), ("un", "exp", ("bin", "*", D1, X))),
+            ("bin", "+", ("bin", "*", P, X), ("bin", "*", D1, ("bin", "*", X, Y))), ("bin", "/", ("bin", "+", X, D0), ("bin", "+", Y, D1)),
+            ("bin", "**", ("bin", "+", X, D0), ("const", 2)), ("bin", "+", ("bin", "**", ("bin", "+", X, D0), ("const", 2)), ("bin", "**", ("bin", "+", X, D1), ("const", 2)))]
     # vector / matrix reductions alone and composed with scalars
     vn = vec_nodes(3, full=True)
     out += vn
@@ -447,8 +458,17 @@ def variable_orders(used, extra=("u0", "u1"), tier="quick"):
     orders.append(base + [e0])
     if len(base) >= 2:
         orders.append(base[:1] + [e0] + base[1:])
+    if len(base) >= 3:
+        # an unused variable INSIDE a permuted block: the positions of the used variables are neither contiguous nor
+        # monotone (first and last may still be exactly len-1 apart)
+        b = base
+        orders += [[b[0], e0, b[2], b[1]] + b[3:], [b[2], b[0], e0, b[1]] + b[3:], [b[1], e0, b[0], b[2]] + b[3:]]
     if tier == "thorough":
         e1 = extra[1]
+        if len(base) == 3:
+            for pm in perms:
+                for pos in range(4):
+                    orders.append(list(pm[:pos]) + [e0] + list(pm[pos:]))
         orders.append([e0] + base + [e1])
         orders.append(list(reversed(base)) + [e1])
         if len(base) >= 2:
